@@ -44,7 +44,7 @@ REAL_VS_STUB = {"real": ["molli.chem.ensemble.ConformerEnsemble / Conformer", "_
 INTERP_VARIANTS = [{"flags": ["-O"], "runs": {"quick": 2000, "thorough": 30000}, "what": "python -O (assert statements stripped from the code under test)"}]
 PROBES = ["iter_plain", "iter_nested", "iter_zip", "iter_restart", "two_or_more_tasks_interleaved", "mutator_between_nexts", "append", "extend_list",
           "extend_ens", "extend_oneshot_iterable", "held_view_checked_after_mutation", "refused_append_or_extend", "atom_relabelled_between_stores", "copy_construct", "rebuild_from_conformers", "slice", "write_through_conformer", "serialise_roundtrip", "conformer_dump",
-          "empty_ensemble_iterated", "history_continues_on_reloaded_ensemble", "conformers_of_a_temporary_ensemble", "ensemble_dump_roundtrip", "own_conformers_appended", "per_conformer_rotation", "refused_rotation", "iter_legacy_next", "extend_mixed_kinds"]
+          "empty_ensemble_iterated", "history_continues_on_reloaded_ensemble", "conformers_of_a_temporary_ensemble", "ensemble_dump_roundtrip", "own_conformers_appended", "per_conformer_rotation", "refused_rotation", "iter_legacy_next", "extend_mixed_kinds", "weights_assigned"]
 
 TEMPLATES = {
     "neon": (["Ne"], []),
@@ -80,7 +80,7 @@ def gen_plan(r, tier, index):
             mut = []
             if r.random() < 0.5:
                 for _ in range(r.choice([1, 2, 4])):
-                    mut.append({"op": r.choice(["scale", "translate", "translate2", "rotate", "invert", "center_atom", "write", "write_elem", "write_charge", "relabel", "dump", "ens_dump", "serialise", "serialise", "rotate_stack", "rotate_bad"]),
+                    mut.append({"op": r.choice(["scale", "translate", "translate2", "rotate", "invert", "center_atom", "write", "write_elem", "write_charge", "relabel", "dump", "ens_dump", "serialise", "serialise", "rotate_stack", "rotate_bad", "set_weights"]),
                                 "a": r.randrange(1 << 16)})
             phases.append({"type": "iter", "tasks": tasks, "mutator": mut, "sched_seed": r.randrange(1 << 30),
                            "strategy": r.choice(["random", "random", "round_robin", "sticky"])})
@@ -350,7 +350,11 @@ def _run_plan(plan, trace=False):
                     st["sources"].append((e2, np.array(newc, copy=True), "the ensemble passed to extend()"))
                 elif op == "copy":
                     res.stats["probe:copy_construct"] += 1
+                    old_ = ens
                     ens = ml.ConformerEnsemble(ens)
+                    # the ensemble it was copied from is an object of its own: whatever happens to the copy from now on,
+                    # the original keeps its coordinates (it stays in the list of watched source objects)
+                    st["sources"].append((old_, np.array(mc, copy=True), "the ensemble the current one was copy-constructed from"))
                 elif op == "rebuild":
                     if mc.shape[0] == 0:
                         continue
@@ -617,6 +621,13 @@ def _mutate(mo, st, res, viol, na, ser, deser, msgpack):
         R = np.array([[0.0, -1.0, 0.0], [1.0, 0.0, 0.0], [0.0, 0.0, 1.0]])
         ens.rotate(R)
         mc[:] = mc @ R
+    elif op == "set_weights":
+        # weights given as one number for all conformers, or as a list: afterwards there is still one weight per conformer
+        w_ = 0.25 if a % 2 else [1.0 / (nc or 1)] * nc
+        ens.weights = w_
+        res.stats["probe:weights_assigned"] += 1
+        if tuple(np.shape(ens.weights)) != (nc,) or (nc and not np.allclose(ens.weights, w_)):
+            viol("not-rectangular", f"after `ens.weights = {w_!r}` the weights are {np.asarray(ens.weights)!r} (shape {np.shape(ens.weights)}), expected one weight per conformer ({nc})")
     elif op == "rotate_stack":
         # one rotation matrix per conformer
         if nc == 0:
